@@ -14,6 +14,13 @@
 (*                  dataset in memory and the recorded size stay           *)
 (*   IntactShortcut matched prefix ending on a command boundary is         *)
 (*                  declared intact even if the own log is longer          *)
+(*   StaleCheck = "atread": a replication session tests whether it is     *)
+(*                  still the current one (followc) before each read of   *)
+(*                  the leader connection instead of per command under    *)
+(*                  the lock ("percmd", as coded)                          *)
+(* Re-pointing (a second FOLLOW, to another leader, without a restart):    *)
+(* the session of the previous leader may still sit in a read on its idle  *)
+(* connection; whatever that leader logs later must not reach the follower.*)
 (* C06: CopyWhenCaughtUp, NoEarlyCaughtUp, LogIsLeaderPrefix.               *)
 (* The initial follower log is leader-prefix \o foreign* (the checksum      *)
 (* probe is sound only if divergence is monotone: once the logs differ     *)
@@ -22,14 +29,21 @@
 EXTENDS Integers, Sequences, FiniteSets, TLC
 
 CONSTANTS CmdSz, W, MaxLeader, MaxFaults,
-          SmallNoCheck, ZeroNoReset, IntactShortcut
+          SmallNoCheck, ZeroNoReset, IntactShortcut,
+          MaxRefollow,     \* how often the follower is re-pointed to the other leader
+          StaleCheck,      \* "percmd" (as coded) | "atread"
+          OLog             \* what the other leader holds initially
 
 \* commands are integers: 1, 2 = set to 1 / 2; 3 = "inc", not idempotent (RENAMENX, NX, append-JSET ...);
 \* 4 = foreign data; 100 + v = the single command of a rewritten (shrunk) log that sets the state to v
 Cmd == {1, 2, 3}
 Fx == 4
-VARIABLES llog, flog, fmem, faofsz, conn, pos, sent, lsizeAtConnect, caughtUp, faults, hist, meta
-vars == <<llog, flog, fmem, faofsz, conn, pos, sent, lsizeAtConnect, caughtUp, faults, hist, meta>>
+\* llog: the log of the leader the follower is configured to follow; olog: the log of the other leader;
+\* stale: the session of the previous leader, blocked in a read: next = index in olog of the command it would receive
+VARIABLES llog, flog, fmem, faofsz, conn, pos, sent, lsizeAtConnect, caughtUp, faults, hist, meta, olog, stale, refollows
+vars == <<llog, flog, fmem, faofsz, conn, pos, sent, lsizeAtConnect, caughtUp, faults, hist, meta, olog, stale, refollows>>
+re == <<olog, stale, refollows>>
+NoStale == [alive |-> FALSE, next |-> 0]
 
 Apply(m, c) == CASE c = 1 -> 1 [] c = 2 -> 2 [] c = 3 -> m + 10 [] c = Fx -> 7 [] c >= 100 -> c - 100
 RECURSIVE Replay(_, _)
@@ -56,6 +70,7 @@ Init == /\ llog \in Seqs(MaxLeader)
         /\ fmem = Replay(0, flog) /\ faofsz = Sz(flog)
         /\ conn = "down" /\ pos = 0 /\ sent = 0 /\ lsizeAtConnect = 0 /\ caughtUp = FALSE /\ faults = 0
         /\ hist = <<>>
+        /\ olog = OLog /\ stale = NoStale /\ refollows = 0
 
 FullReset == /\ flog' = <<>> /\ fmem' = 0 /\ faofsz' = 0
 CheckSome ==
@@ -72,37 +87,58 @@ CheckSome ==
                THEN pos' = b /\ UNCHANGED <<flog, fmem, faofsz>>
                ELSE /\ pos' = b /\ flog' = SubSeq(flog, 1, b \div CmdSz)
                     /\ fmem' = Replay(0, SubSeq(flog, 1, b \div CmdSz)) /\ faofsz' = b
-  /\ UNCHANGED <<llog, faults, hist, meta>>
+  /\ UNCHANGED <<llog, faults, hist, meta, re>>
 RequestAOF == /\ conn = "checked" /\ pos <= Sz(llog)
               /\ conn' = "streaming" /\ caughtUp' = (pos >= lsizeAtConnect)
-              /\ UNCHANGED <<llog, flog, fmem, faofsz, pos, sent, lsizeAtConnect, faults, hist, meta>>
+              /\ UNCHANGED <<llog, flog, fmem, faofsz, pos, sent, lsizeAtConnect, faults, hist, meta, re>>
 Stream == /\ conn = "streaming"
           /\ LET i == (pos \div CmdSz) + sent + 1 IN
              /\ i <= Len(llog) /\ fmem' = Apply(fmem, llog[i]) /\ flog' = Append(flog, llog[i])
              /\ faofsz' = faofsz + CmdSz /\ sent' = sent + 1
              /\ caughtUp' = (caughtUp \/ faofsz + CmdSz >= lsizeAtConnect)
-          /\ UNCHANGED <<llog, conn, pos, lsizeAtConnect, faults, hist, meta>>
+          /\ UNCHANGED <<llog, conn, pos, lsizeAtConnect, faults, hist, meta, re>>
 LWrite(c) == /\ Len(llog) < MaxLeader /\ llog' = Append(llog, c)
              /\ hist' = Append(hist, "lwrite")
-             /\ UNCHANGED <<flog, fmem, faofsz, conn, pos, sent, lsizeAtConnect, caughtUp, faults, meta>>
+             /\ UNCHANGED <<flog, fmem, faofsz, conn, pos, sent, lsizeAtConnect, caughtUp, faults, meta, re>>
 ConnDrop == /\ conn # "down" /\ faults < MaxFaults /\ faults' = faults + 1
             /\ conn' = "down" /\ caughtUp' = FALSE /\ hist' = Append(hist, "drop")
-            /\ UNCHANGED <<llog, flog, fmem, faofsz, pos, sent, lsizeAtConnect, meta>>
+            /\ UNCHANGED <<llog, flog, fmem, faofsz, pos, sent, lsizeAtConnect, meta, re>>
 FRestart == /\ faults < MaxFaults /\ faults' = faults + 1 /\ conn' = "down" /\ caughtUp' = FALSE
             /\ fmem' = Replay(0, flog) /\ faofsz' = Sz(flog) /\ hist' = Append(hist, "frestart")
-            /\ UNCHANGED <<llog, flog, pos, sent, lsizeAtConnect, meta>>
+            /\ stale' = NoStale                      \* a restart ends every session of the process
+            /\ UNCHANGED <<llog, flog, pos, sent, lsizeAtConnect, meta, olog, refollows>>
 \* AOFSHRINK on the leader: its log becomes an equivalent shorter one; replication connections are cut
 LShrink == /\ faults < MaxFaults /\ faults' = faults + 1 /\ Len(llog) > 1
            /\ llog' = <<100 + Replay(0, llog)>>
            /\ conn' = "down" /\ caughtUp' = FALSE /\ hist' = Append(hist, "lshrink")
-           /\ UNCHANGED <<flog, fmem, faofsz, pos, sent, lsizeAtConnect, meta>>
-Next == CheckSome \/ RequestAOF \/ Stream \/ ConnDrop \/ FRestart \/ LShrink \/ \E c \in Cmd : LWrite(c)
+           /\ UNCHANGED <<flog, fmem, faofsz, pos, sent, lsizeAtConnect, meta, re>>
+\* FOLLOW otherhost (cmdFollow: followc + 1, a new session is started; the old one is not told)
+Refollow == /\ refollows < MaxRefollow /\ refollows' = refollows + 1
+            /\ llog' = olog /\ olog' = llog
+            /\ stale' = IF conn = "streaming" THEN [alive |-> TRUE, next |-> (pos \div CmdSz) + sent + 1] ELSE NoStale
+            /\ conn' = "down" /\ caughtUp' = FALSE /\ hist' = Append(hist, "refollow")
+            /\ UNCHANGED <<flog, fmem, faofsz, pos, sent, lsizeAtConnect, faults, meta>>
+\* the leader that is no longer followed keeps writing
+OWrite(c) == /\ refollows > 0 /\ Len(olog) < MaxLeader /\ olog' = Append(olog, c)
+             /\ hist' = Append(hist, "owrite")
+             /\ UNCHANGED <<llog, flog, fmem, faofsz, conn, pos, sent, lsizeAtConnect, caughtUp, faults, meta, stale, refollows>>
+\* the stale session receives the next command of its (former) leader
+StaleDeliver ==
+  /\ stale.alive /\ stale.next <= Len(olog)
+  /\ stale' = NoStale                                       \* either way it then notices and ends
+  /\ IF StaleCheck = "percmd"
+     THEN UNCHANGED <<flog, fmem, faofsz>>                   \* followHandleCommand: followc differs -> errNoLongerFollowing
+     ELSE /\ fmem' = Apply(fmem, olog[stale.next]) /\ flog' = Append(flog, olog[stale.next])
+          /\ faofsz' = faofsz + CmdSz
+  /\ UNCHANGED <<llog, conn, pos, sent, lsizeAtConnect, caughtUp, faults, hist, meta, olog, refollows>>
+Next == CheckSome \/ RequestAOF \/ Stream \/ ConnDrop \/ FRestart \/ LShrink \/ Refollow \/ StaleDeliver
+        \/ \E c \in Cmd : LWrite(c) \/ OWrite(c)
 Spec == Init /\ [][Next]_vars
-View == <<llog, flog, fmem, faofsz, conn, pos, sent, lsizeAtConnect, caughtUp, faults>>   \* without the history
+View == <<llog, flog, fmem, faofsz, conn, pos, sent, lsizeAtConnect, caughtUp, faults, olog, stale, refollows>>   \* without the history
 \* liveness: once faults stop and the leader stops writing, the follower reports caught-up
 Fair == WF_vars(CheckSome) /\ WF_vars(RequestAOF) /\ WF_vars(Stream)
 FairSpec == Spec /\ Fair
-EventuallyCaughtUp == <>[](caughtUp \/ ENABLED (ConnDrop \/ FRestart \/ LShrink \/ \E c \in Cmd : LWrite(c)))
+EventuallyCaughtUp == <>[](caughtUp \/ ENABLED (ConnDrop \/ FRestart \/ LShrink \/ Refollow \/ StaleDeliver \/ \E c \in Cmd : LWrite(c) \/ OWrite(c)))
 
 Drained == conn = "streaming" /\ (pos \div CmdSz) + sent = Len(llog)
 CopyWhenCaughtUp == (caughtUp /\ Drained) => fmem = Replay(0, llog)
